@@ -519,11 +519,11 @@ struct TemplateCore {
                     finder.Next();
 
                     if (finder.GetMatch() == TagPatterns::LineEndID) {
-                        const SizeT var_length = (((finder.GetOffset() - offset) - TagPatterns::InLineSuffixLength)
-                                                  // Limit var length to 255 meter per second.;
-                                                  & SizeT{0xFF});
+                        const SizeT var_length = ((finder.GetOffset() - offset) - TagPatterns::InLineSuffixLength);
 
-                        if (var_length != 0) {
+                        // A name has at most 255 units; a longer one is no tag (masking the length made
+                        // {var:x<256 more units>} the variable x followed by stray text).
+                        if ((var_length != 0) && (var_length <= SizeT{0xFF})) {
                             VariableTag *tag = (storage->Insert(TagBit{})).MakeVariableTag();
                             tag->Offset      = offset;
                             tag->Length      = SizeT16(var_length);
@@ -543,11 +543,11 @@ struct TemplateCore {
                     finder.Next();
 
                     if (finder.GetMatch() == TagPatterns::LineEndID) {
-                        const SizeT var_length = (((finder.GetOffset() - offset) - TagPatterns::InLineSuffixLength)
-                                                  // Limit var length to 255 meter per second.;
-                                                  & SizeT{0xFF});
+                        const SizeT var_length = ((finder.GetOffset() - offset) - TagPatterns::InLineSuffixLength);
 
-                        if (var_length != 0) {
+                        // A name has at most 255 units; a longer one is no tag (masking the length made
+                        // {var:x<256 more units>} the variable x followed by stray text).
+                        if ((var_length != 0) && (var_length <= SizeT{0xFF})) {
                             VariableTag *tag = (storage->Insert(TagBit{})).MakeRawVariableTag();
                             tag->Offset      = offset;
                             tag->Length      = SizeT16(var_length);
@@ -614,10 +614,10 @@ struct TemplateCore {
                         ++offset;
                     }
 
-                    const SizeT16 var_length = SizeT16((offset - svar_id_offset)
-                                                       // Limit var length to 255 meter per second.;
-                                                       & SizeT(0xFF));
+                    const SizeT16 var_length =
+                        (((offset - svar_id_offset) <= SizeT{0xFF}) ? SizeT16(offset - svar_id_offset) : SizeT16{0});
 
+                    // (a phrase name of more than 255 units is no tag)
                     if (var_length != SizeT16{0}) {
                         SuperVariableTag *tag = (storage->Insert(TagBit{})).MakeSuperVariableTag();
                         tag->Offset           = svar_offset;
